@@ -169,6 +169,12 @@ func c06Scenarios(tier string) []*Scenario {
 	add("hedge(bulkhead)", []Spec{{Kind: KHedge, MaxHedges: 1, HDelay: 10}, B(1, 0)}, 1, []ExeSpec{{Script: []Out{{V: 1, Dur: 30, Coop: true}, {V: 2, Dur: 5}}}}, false)
 	add("hedge(bulkhead)-wait", []Spec{{Kind: KHedge, MaxHedges: 1, HDelay: 10}, B(1, W)}, 1, []ExeSpec{{Script: []Out{{V: 1, Dur: 30}, {V: 2, Dur: 5}}}}, false)
 	add("hedge(bulkhead)-2", []Spec{{Kind: KHedge, MaxHedges: 2, HDelay: 10}, B(2, 0)}, 1, []ExeSpec{{Script: []Out{{V: 1, Dur: 40, Coop: true}, {V: 2, Dur: 40, Coop: true}, {V: 3, Dur: 5}}}}, false)
+	// cancelled (by an enclosing Timeout, by ExecutionResult.Cancel) while holding a permit, with a policy between the bulkhead and the function
+	rt := Spec{Kind: KRetry, MaxRetries: 3, Delay: 10}
+	slowFail := []Out{{Err: E1, Dur: 15, Coop: true}}
+	add("timeout(bulkhead(retry))", []Spec{T(W), B(2, 0), rt}, 1, []ExeSpec{{Script: slowFail}, {Script: hold(10), StartAt: 2 * W}}, false)
+	add("timeout(bulkhead(fallback-failing))", []Spec{T(W), B(1, 0), {Kind: KFallback, FbE: E3}}, 1, []ExeSpec{{Script: []Out{{Err: E1, Block: true}}}, {Script: hold(10), StartAt: 2 * W}}, false)
+	add("bulkhead(retry)-async-cancel", []Spec{B(1, 0), rt}, 0, []ExeSpec{{Script: slowFail, Async: true, CancelAsync: true, CancelAt: 20}, {Script: hold(10), StartAt: 2 * W}}, false)
 	// an admitted execution whose own outcome is ErrFull (a full bulkhead further in, or downstream)
 	add("fn-returns-ErrFull", []Spec{B(1, 0)}, 0, []ExeSpec{{Script: []Out{{Err: bulkhead.ErrFull, Dur: 10}}}, {Script: hold(10), StartAt: 20}}, false)
 	add("fn-returns-wrapped-ErrFull", []Spec{B(1, W)}, 0, []ExeSpec{{Script: []Out{{Err: fmt.Errorf("downstream: %w", bulkhead.ErrFull), Dur: 10}}}, {Script: hold(10), StartAt: 1}}, false)
